@@ -14,7 +14,13 @@ def chars(name):
     return [{"c": c, "lo": c.lower(), "up": c.isupper() and c.isascii()} for c in name]
 
 
-FIELD_NAMES = ["a", "v", "alpha", "alpha_beta", "out_dir", "level", "x", "max_size", "dry_run", "n", "file", "jobs", "k_v"]
+FIELD_NAMES = ["a", "v", "alpha", "alpha_beta", "out_dir", "level", "x", "max_size", "dry_run", "n", "file", "jobs", "k_v",
+               "type", "in", "yield"]
+RAW = {"type", "in", "yield", "match", "loop"}      # keywords: written as raw identifiers (r#type); the name is the identifier without the prefix
+
+
+def rn(f):
+    return ("r#" + f["name"]) if f["name"] in RAW else f["name"]
 VARIANT_NAMES = ["Alpha", "BetaGamma", "Run", "DryRun", "X", "Build", "ListAll", "Zed"]
 
 
@@ -140,7 +146,9 @@ def nested_def(rnd, tid):
         f["ann"].update(positional=False, posmeta="", hide=False)
     return {"id": tid, "shape": "nested", "fields": outer, "variants": [], "version": False,
             "inner": {"fields": inner, "doc": f"DOC-{tid}" if rnd.random() < 0.7 else "",
-                      "group_help": f"GH-{tid}" if rnd.random() < 0.6 else ""}}
+                      "group_help": f"GH-{tid}" if rnd.random() < 0.6 else "",
+                      # a type-level default, shown in help (`fallback(..)`, `display_fallback`)
+                      "fallback": rnd.random() < 0.5}}
 
 
 def family(seed, n):
@@ -220,21 +228,29 @@ def rust_source(tds):
             if inn["doc"]:
                 out.append(f"/// {inn['doc']}")
             out.append("#[derive(Debug, Clone, Bpaf)]")
-            if inn["group_help"]:
-                out.append(f'#[bpaf(group_help("{inn["group_help"]}"))]')
+            tattrs = ([f'group_help("{inn["group_help"]}")'] if inn["group_help"] else []) + \
+                ([f"fallback({tid}Inner::dflt())", "display_fallback"] if inn.get("fallback") else [])
+            if tattrs:
+                out.append(f'#[bpaf({", ".join(tattrs)})]')
             out.append(f"pub struct {tid}Inner {{")
             for f in inn["fields"]:
-                out.append(field_attrs(f) + f"    {f['name']}: {rust_ty(f)},")
+                out.append(field_attrs(f) + f"    {rn(f)}: {rust_ty(f)},")
             out.append("}")
+            if inn.get("fallback"):
+                dv = lambda f: {"bool": "false", "unit": "()", "opt": "None", "vec": "Vec::new()",
+                                "T": {"String": 'String::from("d")', "u32": "7", "PathBuf": 'std::path::PathBuf::from("d")'}[f["base"]]}[f["ty"]]
+                inits = ", ".join(f"{rn(f)}: {dv(f)}" for f in inn["fields"])
+                out.append(f"impl {tid}Inner {{ fn dflt() -> Self {{ {tid}Inner {{ {inits} }} }} }}")
+                out.append(f'impl std::fmt::Display for {tid}Inner {{ fn fmt(&self, f: &mut std::fmt::Formatter<\'_>) -> std::fmt::Result {{ write!(f, "DFLT") }} }}')
             out.append("#[derive(Debug, Clone, Bpaf)]")
             out.append(f"#[bpaf({top})]")
             out.append(f"pub struct {tid} {{")
             for f in td["fields"]:
-                out.append(field_attrs(f) + f"    {f['name']}: {rust_ty(f)},")
+                out.append(field_attrs(f) + f"    {rn(f)}: {rust_ty(f)},")
             out.append(f"    #[bpaf(external({fn}_inner))]\n    inner: {tid}Inner,")
             out.append("}")
-            vals = [val_expr(f, f"t.{f['name']}") for f in td["fields"]]
-            ivals = ", ".join(val_expr(f, f"t.inner.{f['name']}") for f in inn["fields"])
+            vals = [val_expr(f, f"t.{rn(f)}") for f in td["fields"]]
+            ivals = ", ".join(val_expr(f, f"t.inner.{rn(f)}") for f in inn["fields"])
             vals.append(f"Val::Tuple(vec![{ivals}])")
             out.append(f"impl From<{tid}> for Val {{ fn from(t: {tid}) -> Val {{ Val::Tuple(vec![{', '.join(vals)}]) }} }}")
         elif td["shape"] in ("struct", "tuple"):
@@ -243,9 +259,9 @@ def rust_source(tds):
             if td["shape"] == "struct":
                 out.append(f"pub struct {tid} {{")
                 for f in td["fields"]:
-                    out.append(field_attrs(f) + f"    {f['name']}: {rust_ty(f)},")
+                    out.append(field_attrs(f) + f"    {rn(f)}: {rust_ty(f)},")
                 out.append("}")
-                vals = ", ".join(val_expr(f, f"t.{f['name']}") for f in td["fields"])
+                vals = ", ".join(val_expr(f, f"t.{rn(f)}") for f in td["fields"])
             else:
                 out.append(f"pub struct {tid}(")
                 for f in td["fields"]:
@@ -279,10 +295,10 @@ def rust_source(tds):
                 else:
                     out.append(f"    {v['name']} {{")
                     for f in v["fields"]:
-                        out.append("    " + field_attrs(f).replace("\n    ", "\n        ") + f"        {f['name']}: {rust_ty(f)},")
+                        out.append("    " + field_attrs(f).replace("\n    ", "\n        ") + f"        {rn(f)}: {rust_ty(f)},")
                     out.append("    },")
-                    names = ", ".join(f["name"] for f in v["fields"])
-                    vals = [val_expr(f, f["name"]) for f in v["fields"]]
+                    names = ", ".join(rn(f) for f in v["fields"])
+                    vals = [val_expr(f, rn(f)) for f in v["fields"]]
                     payload = vals[0] if (len(vals) == 1 and not v["command"]) else f"Val::Tuple(vec![{', '.join(vals)}])"
                     arms.append(f"{tid}::{v['name']} {{ {names} }} => Val::Variant({k}, Box::new({payload}))")
             out.append("}")
